@@ -489,6 +489,12 @@ async fn world_body<const S: usize>(case: HybridCase, interceptor: Option<DynStr
     if let Some(i) = interceptor {
         cfg.stream_interceptor = i;
     }
+    // the compact step table only knows gates below the protocol's root step
+    #[cfg(compact_gate)]
+    {
+        use ipa_step::StepNarrow;
+        cfg.initial_gate = Some(crate::protocol::Gate::default().narrow(&crate::protocol::step::ProtocolStep::Hybrid));
+    }
     let world = TestWorld::<WithShards<S>>::with_shards(&cfg);
     // own sharing of the inputs, own distribution over shards
     let mut r = VRng::new(case.world_seed ^ 0x51a4e5, 0);
@@ -540,7 +546,7 @@ fn run_s<const S: usize>(case: &HybridCase, interceptor: Option<DynStreamInterce
             Paused::Done(()) => (false, false),
             Paused::Quiescent => (true, false),
         },
-        Exec::Mt(w) => match vlib::run_mt(w, Duration::from_secs(600), body) {
+        Exec::Mt(w) => match vlib::run_mt(w, Duration::from_secs(240), body) {
             Some(()) => (false, false),
             None => (false, true),
         },
@@ -566,6 +572,18 @@ fn run_s<const S: usize>(case: &HybridCase, interceptor: Option<DynStreamInterce
 }
 
 pub fn run_hybrid(case: &HybridCase, interceptor: Option<DynStreamInterceptor>) -> HybridRun {
+    let run = run_hybrid_once(case, interceptor.clone());
+    if run.wall_timeout {
+        // a multi-thread run that did not finish within the wall-clock guard is re-run on the paused-clock
+        // executor, which decides "never finishes" soundly (quiescence) instead of by time
+        let mut c = case.clone();
+        c.exec = Exec::Paused;
+        return run_hybrid_once(&c, interceptor);
+    }
+    run
+}
+
+fn run_hybrid_once(case: &HybridCase, interceptor: Option<DynStreamInterceptor>) -> HybridRun {
     assert_eq!(case.reports.len(), case.assign.len());
     match case.shards {
         1 => run_s::<1>(case, interceptor),
